@@ -1720,4 +1720,63 @@ example : toMillis (multiplierOf precisionTable "ns") 1700000001000999999 = some
 
 end InfluxTimestamp
 
+/-! ## Round 12 — canonical stored form of an accepted line-protocol line -/
+
+section InfluxCanonical
+open LinVerif.InfluxStream LinVerif.FlatRow
+
+/-- **what an accepted line is stored as** (any position in any request, by `influx_request_lines_independent`):
+no section of it failed; the stored name / namespace are the sanitised measurement / request namespace,
+the fields are the parsed fields in order (reserved names escaped), the tags are RowBuilder's sort +
+keep-last de-duplication of the line's tags followed by the request's tags, the timestamp is the line's
+(the clock when absent or 0), no histogram, tags hash of the stored tags, name hash of the stored
+namespace and name. -/
+theorem influx_line_canonical (c : ICfg) (sortK : List Tag → List Tag) (H : String → Nat) (ln : ILine) (s : Stored)
+    (h : (lineStep true c sortK H RB.fresh ln).2 = .stored s) :
+    ln.comment = false ∧ ln.nameErr = false ∧ ln.tagsErr = false ∧ ln.fieldsErr = false ∧ ln.tsErr = false ∧
+    s.name = sanitizeName ln.name ∧ s.ns = sanitizeName c.reqNs ∧
+    s.fields = ln.fields.map sanF ∧ s.tags = flatDedup sortK (ln.tags ++ c.enriched) ∧
+    s.ts = (if ln.ts.getD c.now = 0 then c.now else ln.ts.getD c.now) ∧ s.compound = none ∧
+    s.hash = H (concatKVs s.tags) ∧ s.nameHash = H (s.ns ++ s.name) := by
+  revert h
+  simp only [lineStep, if_true]
+  by_cases hc : ln.comment = true
+  · simp [hc]
+  · simp only [hc, if_false, Bool.false_eq_true]
+    rcases hP : parseLine c RB.fresh.reset ln with ⟨bx, _ | _⟩
+    · -- the parser returned nil
+      simp only
+      by_cases hn : ln.nameErr = true
+      · -- measurement scan failed: only the namespace is in the builder, Build refuses the empty name
+        have hb : bx = RB.fresh.reset.addNameSpace c.reqNs := by
+          have := congrArg Prod.fst hP
+          simpa [parseLine, hn] using this.symm
+        obtain ⟨e2, e1⟩ := addEnriched_spec c.enriched bx
+        rcases hE : addEnriched bx c.enriched with ⟨ex, _ | _⟩
+        · rw [hE] at e2 e1
+          simp only at e2 e1
+          obtain ⟨st, hst⟩ := e1 e2.symm
+          simp [hst, hb, RB.build, RB.addNameSpace, RB.reset, RB.fresh]
+        · simp
+      · have hn' : ln.nameErr = false := by simpa using hn
+        obtain ⟨a1, a2, a3, sk, sf, hbx⟩ := parseLine_accepts c ln RB.fresh.reset hn' (by rw [hP])
+        rw [hP] at hbx
+        simp only at hbx
+        obtain ⟨e2, e1⟩ := addEnriched_spec c.enriched bx
+        rcases hE : addEnriched bx c.enriched with ⟨ex, _ | _⟩
+        · rw [hE] at e2 e1
+          simp only at e2 e1
+          obtain ⟨st, hst⟩ := e1 e2.symm
+          simp only [hst, hbx, RB.build, RB.reset, RB.fresh, List.nil_append]
+          split_ifs <;> simp_all
+          all_goals (intro hs; subst hs; simp_all)
+        · simp
+    · simp
+
+example : (lineStep true icfg0 (insertionSort (less false)) H0 RB.fresh lnGood).2 =
+    .stored ⟨"cpu", "ns", 1700000001000, [⟨"host", "b"⟩, ⟨"region", "sh"⟩], [⟨"usage_last", 1, .num 2⟩], none, 16, 5⟩ := by
+  decide
+
+end InfluxCanonical
+
 end LinVerif.Props.C16
